@@ -286,9 +286,23 @@ namespace c03 {
         long e = 0;
         int same = -1;    // 1: exception_ptr identical to one a leaf created, 0: same id but another object
         std::mutex m;
+        std::function<void()> on_first;    // e.g. destroy the operation state from inside the receiver
         void record(int c, V const* v, std::exception_ptr const* ep)
         {
-            std::lock_guard l(m);
+            bool first = false;
+            {
+                std::lock_guard l(m);
+                first = record_locked(c, v, ep);
+            }
+            if (first && on_first)
+            {
+                auto f = std::move(on_first);
+                on_first = nullptr;
+                f();
+            }
+        }
+        bool record_locked(int c, V const* v, std::exception_ptr const* ep)
+        {
             if (n.fetch_add(1) == 0)
             {
                 chan = c;
@@ -307,7 +321,9 @@ namespace c03 {
                     }
                     if (same != 1 && idseen) same = 0;
                 }
+                return true;
             }
+            return false;
         }
         std::string result() const
         {
